@@ -83,7 +83,7 @@ def checks():
     return [
         HypCheck(
             'trees', lambda: trees.trees(), run_case,
-            budget={'quick': (16, 80), 'thorough': (16, 5000)},
+            budget={'quick': (16, 200), 'thorough': (16, 5000)},
             rule='trees built through DiffX()/add_change()/add_file() '
                  'keywords or typed attribute assignment (<=4 changes x <=3 '
                  'files, every documented attribute set or unset, 11 codecs, '
